@@ -11,6 +11,7 @@
 #include <errno.h>
 #include <time.h>
 #include <sys/time.h>
+#include <ucontext.h>
 
 extern "C" {
 struct mi_sim_site_s { const char* file; const char* func; int line; int kind; int id; int flags; };
@@ -606,12 +607,14 @@ void sched_barrier(int id, int parties) {
 // signals: a crash inside the allocator (or inside the harness's own access to a block) is a violation
 // ---------------------------------------------------------------------------------
 static void crash_handler(int sig, siginfo_t* si, void* ctx) {
-  (void)ctx;
   if (g_finishing) _exit(3);
-  char d[256] = ""; char b[600];
+  char d[256] = ""; char b[700]; char pc[48] = "";
+#if defined(__x86_64__)
+  if (ctx) snprintf(pc, sizeof pc, " pc=0x%llx", (unsigned long long)((ucontext_t*)ctx)->uc_mcontext.gregs[REG_RIP]);
+#endif
   if (sig == SIGSEGV || sig == SIGBUS) {
     os_describe_addr(si->si_addr, d, sizeof d);
-    snprintf(b, sizeof b, "%s at %p (%s)%s", sig == SIGSEGV ? "SIGSEGV" : "SIGBUS", si->si_addr, d, g_crash_context ? g_crash_context() : "");
+    snprintf(b, sizeof b, "%s at %p (%s)%s%s", sig == SIGSEGV ? "SIGSEGV" : "SIGBUS", si->si_addr, d, g_crash_context ? g_crash_context() : "", pc);
     write_result_and_exit("violation", "crash", b, 0);
   }
   if (sig == SIGABRT && g_abort_is_expected && g_abort_is_expected()) write_result_and_exit("ok", nullptr, nullptr, 0);
